@@ -6,7 +6,8 @@
 //! The table below is written with macros that mirror the library's macro families
 //! (forward_*_binop_to_repr, impl_binop_assign_by_taking, impl_*_with_primitive, float/rational
 //! helper_macros).
-use dashu_base::{Abs, DivEuclid, DivRem, DivRemAssign, DivRemEuclid, ExtendedGcd, Gcd, Inverse, RemEuclid, SquareRoot, UnsignedAbs};
+use dashu_base::{Abs, CubicRoot, CubicRootRem, DivEuclid, DivRem, DivRemAssign, DivRemEuclid, ExtendedGcd, Gcd, Inverse, RemEuclid, SquareRoot, SquareRootRem, UnsignedAbs};
+use dashu_float::round::Rounding;
 use dashu_float::round::Round;
 use dashu_int::fast_div::ConstDivisor;
 use dashu_int::modular::Reduced;
@@ -360,6 +361,45 @@ fn int_shift(kind: &str, a: &[&str]) -> Vec<String> {
     out
 }
 
+/// `cdu|cdi <div|rem|divrem> <x> <d>` : the operators taking a prepared divisor `&ConstDivisor` (integer/src/div_const.rs)
+/// next to the plain operators with the same divisor
+fn const_div(kind: &str, a: &[&str]) -> Vec<String> {
+    let mut out = Vec::new();
+    let d = ubig(a[2]);
+    macro_rules! go { ($x:ident, $big:expr) => {{
+        let big = || $big;
+        match a[0] {
+            "div" => {
+                out.push(form("big", || ($x() / big()).show()));
+                out.push(form("v", || { let cd = ConstDivisor::new(d.clone()); ($x() / &cd).show() }));
+                out.push(form("r", || { let cd = ConstDivisor::new(d.clone()); (&$x() / &cd).show() }));
+                out.push(form("a", || { let cd = ConstDivisor::new(d.clone()); let mut z = $x(); z /= &cd; z.show() }));
+            }
+            "rem" => {
+                out.push(form("big", || ($x() % big()).show()));
+                out.push(form("v", || { let cd = ConstDivisor::new(d.clone()); ($x() % &cd).show() }));
+                out.push(form("r", || { let cd = ConstDivisor::new(d.clone()); (&$x() % &cd).show() }));
+                out.push(form("a", || { let cd = ConstDivisor::new(d.clone()); let mut z = $x(); z %= &cd; z.show() }));
+            }
+            "divrem" => {
+                out.push(form("big", || $x().div_rem(big()).show()));
+                out.push(form("v", || { let cd = ConstDivisor::new(d.clone()); $x().div_rem(&cd).show() }));
+                out.push(form("r", || { let cd = ConstDivisor::new(d.clone()); (&$x()).div_rem(&cd).show() }));
+                out.push(form("a", || { let cd = ConstDivisor::new(d.clone()); let mut z = $x(); let r = z.div_rem_assign(&cd); (z, r).show() }));
+            }
+            _ => out.push(format!("unknown-op={}", a[0])),
+        }
+    }}; }
+    if kind == "cdu" {
+        let x = || ubig(a[1]);
+        go!(x, d.clone())
+    } else {
+        let x = || ibig(a[1]);
+        go!(x, IBig::from(d.clone()))
+    }
+    out
+}
+
 fn sign_of(s: &str) -> Sign {
     if s == "neg" { Sign::Negative } else { Sign::Positive }
 }
@@ -400,6 +440,45 @@ fn int_unary(a: &[&str]) -> Vec<String> {
             out.push(form("xs", || (u() * s).show()));
             out.push(form("sx", || (s * u()).show()));
         }
+        // roots: the trait methods (the only impls) next to the inherent nth_root
+        "rootu" => {
+            let u = || ubig(a[1]);
+            out.push(form("sqrt_t", || SquareRoot::sqrt(&u()).show()));
+            out.push(form("sqrt_n", || u().nth_root(2).show()));
+            out.push(form("sqrtrem_t", || SquareRootRem::sqrt_rem(&u()).show()));
+            out.push(form("cbrt_t", || CubicRoot::cbrt(&u()).show()));
+            out.push(form("cbrt_n", || u().nth_root(3).show()));
+            out.push(form("cbrtrem_t", || CubicRootRem::cbrt_rem(&u()).show()));
+        }
+        "rooti" => {
+            out.push(form("sqrt_t", || SquareRoot::sqrt(&x()).show()));
+            out.push(form("sqrt_n", || x().nth_root(2).show()));
+            out.push(form("cbrt_t", || CubicRoot::cbrt(&x()).show()));
+            out.push(form("cbrt_n", || x().nth_root(3).show()));
+        }
+        // IBig + Rounding (dashu-float): the adjustment of a rounded integer
+        "addround" => {
+            let r = || match a[2] { "AddOne" => Rounding::AddOne, "SubOne" => Rounding::SubOne, _ => Rounding::NoOp };
+            out.push(form("v", || (x() + r()).show()));
+            out.push(form("r", || (&x() + r()).show()));
+            out.push(form("a", || { let mut z = x(); z += r(); z.show() }));
+        }
+        // pow (inherent) next to the Product of n copies and the explicit fold
+        "upow" => {
+            let u = || ubig(a[1]);
+            let n = usz(a[2]);
+            out.push(form("m", || u().pow(n).show()));
+            out.push(form("prod_v", || core::iter::repeat(u()).take(n).product::<UBig>().show()));
+            out.push(form("prod_r", || { let b = u(); core::iter::repeat(&b).take(n).product::<UBig>().show() }));
+            out.push(form("fold", || { let b = u(); let mut acc = UBig::ONE; for _ in 0..n { acc *= &b; } acc.show() }));
+        }
+        "ipow" => {
+            let n = usz(a[2]);
+            out.push(form("m", || x().pow(n).show()));
+            out.push(form("prod_v", || core::iter::repeat(x()).take(n).product::<IBig>().show()));
+            out.push(form("prod_r", || { let b = x(); core::iter::repeat(&b).take(n).product::<IBig>().show() }));
+            out.push(form("fold", || { let b = x(); let mut acc = IBig::ONE; for _ in 0..n { acc *= &b; } acc.show() }));
+        }
         _ => out.push(format!("unknown-op={}", a[0])),
     }
     out
@@ -427,6 +506,19 @@ fn float_bin<R: Round, const B: Word>(op: &str, a: &[&str]) -> Vec<String> {
         "dive" => met4!(out, x, y, div_euclid),
         "reme" => met4!(out, x, y, rem_euclid),
         "divreme" => met4!(out, x, y, div_rem_euclid),
+        _ => out.push(format!("unknown-op={}", op)),
+    }
+    out
+}
+
+/// `f mul <4|8> <mode> ...` : the forms of `*` only, in the power-of-two bases 4 and 8
+fn float_mul_only<R: Round, const B: Word>(op: &str, a: &[&str]) -> Vec<String> {
+    let mut out = Vec::new();
+    let x = || fmake::<R, B>(a[0], a[1], a[2]);
+    let y = || fmake::<R, B>(a[3], a[4], a[5]);
+    let ctx = || Context::max(x().context(), y().context());
+    match op {
+        "mul" => { own4!(out, x, y, *); asg2!(out, x, y, *=); out.push(form("ctx", || ctx().mul(x().repr(), y().repr()).value().show())); }
         _ => out.push(format!("unknown-op={}", op)),
     }
     out
@@ -609,6 +701,19 @@ macro_rules! float_dispatch {
             "a" => modes!(10),
             "10" => modes!(16),
             other => panic!("unsupported base {} (hex)", other),
+        }
+    }};
+}
+macro_rules! float_dispatch_p2 {
+    ($f:ident, $base:expr, $mode:expr, $op:expr, $args:expr) => {{
+        match ($base, $mode) {
+            ("4", "Zero") => $f::<mode::Zero, 4>($op, $args),
+            ("4", "HalfEven") => $f::<mode::HalfEven, 4>($op, $args),
+            ("4", "Up") => $f::<mode::Up, 4>($op, $args),
+            ("8", "Zero") => $f::<mode::Zero, 8>($op, $args),
+            ("8", "HalfAway") => $f::<mode::HalfAway, 8>($op, $args),
+            ("8", "Down") => $f::<mode::Down, 8>($op, $args),
+            (b, m) => panic!("unsupported base/mode {} {} for the bases 4 / 8", b, m),
         }
     }};
 }
@@ -983,11 +1088,13 @@ macro_rules! fold_forms {
             $out.push(form("refs", || $items().iter().sum::<$t>().show()));
             $out.push(form("fold_v", || $items().into_iter().fold(<$t>::ZERO, |acc, x| acc + x).show()));
             $out.push(form("fold_r", || { let v = $items(); let mut acc = <$t>::ZERO; for x in v.iter() { acc += x; } acc.show() }));
+            $out.push(form("fold_rv", || { let v = $items(); let mut acc = <$t>::ZERO; for x in v.iter() { acc = &acc + x; } acc.show() }));
         } else {
             $out.push(form("owned", || $items().into_iter().product::<$t>().show()));
             $out.push(form("refs", || $items().iter().product::<$t>().show()));
             $out.push(form("fold_v", || $items().into_iter().fold(<$t>::ONE, |acc, x| acc * x).show()));
             $out.push(form("fold_r", || { let v = $items(); let mut acc = <$t>::ONE; for x in v.iter() { acc *= x; } acc.show() }));
+            $out.push(form("fold_rv", || { let v = $items(); let mut acc = <$t>::ONE; for x in v.iter() { acc = &acc * x; } acc.show() }));
         }
     }};
 }
@@ -997,8 +1104,32 @@ fn iter_fold(a: &[&str]) -> Vec<String> {
     let mut out = Vec::new();
     let op = a[0];
     match a[1] {
-        "u" => { let items = || -> Vec<UBig> { a[2..].iter().map(|c| ubig(c)).collect() }; fold_forms!(out, op, items, UBig) }
-        "i" => { let items = || -> Vec<IBig> { a[2..].iter().map(|c| ibig(c)).collect() }; fold_forms!(out, op, items, IBig) }
+        "u" => {
+            let items = || -> Vec<UBig> { a[2..].iter().map(|c| ubig(c)).collect() };
+            fold_forms!(out, op, items, UBig);
+            // Sum<T> / Product<T> exist for every T the big type can be added to / multiplied by: primitive items
+            // (the low 16 bits of every item)
+            let prims = || -> Vec<u16> { a[2..].iter().map(|c| u16::try_from(&(ubig(c) & UBig::from(0xffffu16))).unwrap()).collect() };
+            if op == "sum" {
+                out.push(form("prims", || prims().into_iter().sum::<UBig>().show()));
+                out.push(form("prims_r", || prims().iter().sum::<UBig>().show()));
+            } else {
+                out.push(form("prims", || prims().into_iter().product::<UBig>().show()));
+                out.push(form("prims_r", || prims().iter().product::<UBig>().show()));
+            }
+        }
+        "i" => {
+            let items = || -> Vec<IBig> { a[2..].iter().map(|c| ibig(c)).collect() };
+            fold_forms!(out, op, items, IBig);
+            let prims = || -> Vec<i16> { a[2..].iter().map(|c| u16::try_from(&(ibig(c) & IBig::from(0xffffu16))).unwrap() as i16).collect() };
+            if op == "sum" {
+                out.push(form("prims", || prims().into_iter().sum::<IBig>().show()));
+                out.push(form("prims_r", || prims().iter().sum::<IBig>().show()));
+            } else {
+                out.push(form("prims", || prims().into_iter().product::<IBig>().show()));
+                out.push(form("prims_r", || prims().iter().product::<IBig>().show()));
+            }
+        }
         // RBig / Relaxed: rational/src/iter.rs exists but is not a module of the crate (no `mod iter;`),
         // so Sum / Product are not offered for rationals
         other => out.push(format!("unknown-kind={}", other)),
@@ -1056,7 +1187,9 @@ fn run(op: &str, a: &[&str]) -> String {
         "ip" => ibig_prim(a),
         "ush" | "ish" => int_shift(op, a),
         "un" => int_unary(a),
+        "f" if a[1] == "4" || a[1] == "8" => float_dispatch_p2!(float_mul_only, a[1], a[2], a[0], &a[3..]),
         "f" => float_dispatch!(float_bin, a[1], a[2], a[0], &a[3..]),
+        "cdu" | "cdi" => const_div(op, a),
         "fsh" => float_dispatch!(float_shift, a[1], a[2], a[0], &a[3..]),
         "fu" => float_dispatch!(float_unary, a[1], a[2], a[0], &a[3..]),
         "fp" => float_dispatch_small!(float_prim, a[1], a[2], a[0], &a[3..]),
